@@ -274,7 +274,10 @@ class GCPGeoBox(GeoBoxBase):
         :returns:
           GCPGeoBox covering the same region but with different number of pixels and therefore resolution.
         """
-        _shape, _affine = self.compute_zoom_to(shape, resolution=resolution)
+        if shape is None and resolution is not None:
+            # pixel count a linear GeoBox of this resolution needs for the same footprint
+            shape, _ = self.compute_zoom_to(resolution=resolution)
+        _shape, _affine = self.compute_zoom_to(shape)
         return GCPGeoBox(_shape, self._mapping, _affine)
 
     def __str__(self):
